@@ -17,7 +17,8 @@ from .common import Failure, f2h, h2f, parse_reply
 
 ID = "C03"
 BIN = "c03"
-PROOF_MODULES = ["Compute.Lemmas.C03", "Compute.Lemmas.C03Discrete", "Compute.Props.C03"]
+PROOF_MODULES = ["Compute.Lemmas.C03", "Compute.Lemmas.C03Discrete", "Compute.Props.C03", "Compute.Props.C03Witness",
+                 "Compute.Props.C03Mvn"]
 EXHAUSTIVE = {"quick": False, "thorough": False}
 IMPL_TIMEOUT = 2400
 MODEL_TIMEOUT = 1800
@@ -242,35 +243,71 @@ def _EXTRACT_core(repo):
 
 
 # ----------------------------------------------------------------------------------------------- metadata
+# headline results (what the claim rests on)
 REQUIRED_THEOREMS = [
     "Cv.C03.lits_valid", "Cv.C03.f64_range",
+    # inverse-cdf laws, for EVERY returning call (the redraw loop of F53 removes u = 0), with termination statements
     "Cv.C03.exponential_inverse_cdf", "Cv.C03.pareto_inverse_cdf", "Cv.C03.gumbel_inverse_cdf", "Cv.C03.uniform_inverse_cdf",
-    "Cv.C03.bernoulli_law", "Cv.C03.poisson_mult_spec", "Cv.C03.poisson_mult_complete", "Cv.C03.binomial_inversion_spec",
-    "Cv.C03.binomial_inversion_le",
-    "Cv.C03.chi_squared_is_gamma", "Cv.C03.beta_is_gamma_ratio", "Cv.C03.t_formula", "Cv.C03.mvn_sample_spec",
-    "Cv.C03.binomial_flip", "Cv.C03.binomial_routing", "Cv.C03.poisson_routing", "Cv.C03.gamma_boost",
+    "Cv.C03.exponential_returns", "Cv.C03.pareto_returns", "Cv.C03.gumbel_returns", "Cv.C03.redraw_unit_spec",
+    "Cv.C03.redraw_unit_returns", "Cv.C03.f53_state", "Cv.C03.bernoulli_law",
+    # the two exact discrete samplers: characterisation + termination for every generator state
+    "Cv.C03.poisson_mult_spec", "Cv.C03.poisson_mult_complete", "Cv.C03.poisson_mult_unique", "Cv.C03.poisson_mult_terminates",
+    "Cv.C03.poisson_mult_terminates_fuel", "Cv.C03.binomial_inversion_spec", "Cv.C03.binomial_inversion_le",
+    "Cv.C03.binomial_inversion_terminates",
+    # support
     "Cv.C03.pareto_support", "Cv.C03.exponential_support", "Cv.C03.uniform_support", "Cv.C03.bernoulli_support",
-    "Cv.C03.gamma_support_ge_one", "Cv.C03.gamma_support_lt_one",
-    "Cv.C03.sampleN_length", "Cv.C03.sampleN_consecutive", "Cv.C03.sampleMatrix_shape", "Cv.C03.mvn_sampleN_shape",
-    "Cv.C03.legacy_gamma_sqrt_domain", "Cv.C03.gamma_sqrt_domain",
+    "Cv.C03.discrete_uniform_support",
+    # partial correctness of the rejection samplers (every RETURNING call; termination not proved): `_partial`
+    "Cv.C03.gamma_support_ge_one_partial", "Cv.C03.gamma_support_lt_one_partial", "Cv.C03.gamma_support_pos_partial",
+    "Cv.C03.gamma_support_nonneg_partial", "Cv.C03.chi_squared_support_partial", "Cv.C03.beta_sample_support_partial",
+    "Cv.C03.gamma_boost", "Cv.C03.beta_underflow_branch", "Cv.C03.mvn_sample_spec", "Cv.C03Mvn.mvn_new_spec",
+    # bulk
+    "Cv.C03.sampleN_length", "Cv.C03.sampleN_consecutive", "Cv.C03.sampleMatrix_shape", "Cv.C03.sampleMatrix_total",
+    "Cv.C03.mvn_sampleN_shape",
+    # Ziggurat tables: internal consistency of the doubles of the source, with explicit tolerances
     "Cv.C03.zig_K_consistent", "Cv.C03.zig_equal_area", "Cv.C03.zig_R_consistent", "Cv.C03.zigY_strictly_decreasing",
-    "Cv.C03.beta_underflow_branch", "Cv.C03.beta_sample_support", "Cv.C03.gamma_support_nonneg",
-    "Cv.C03.chi_squared_support", "Cv.C03.poisson_mult_unique", "Cv.C03.mvn_sample_eq", "Cv.C03.sampleMatrix_total",
+    # non-vacuity: the hypotheses "the call returns" are satisfiable over the reals (concrete generator states)
+    "Cv.C03W.normal_fast", "Cv.C03W.gamma_fast_accept", "Cv.C03W.normal_returns_witness", "Cv.C03W.gamma_returns_witness",
+    "Cv.C03W.gamma_boost_returns_witness", "Cv.C03W.chi_squared_returns_witness", "Cv.C03W.chi_squared_one_returns_witness",
+    "Cv.C03W.t_returns_witness", "Cv.C03W.beta_returns_witness", "Cv.C03W.normal_pair_witness", "Cv.C03W.mvn_returns_witness",
+]
+# unfolding-level facts (`rfl` / `simp [def]`): they pin the shape of the model (so an edit of the composition in the model
+# breaks them) but say nothing beyond the definition; required so that they do not silently disappear, NOT headline results
+REQUIRED_THEOREMS += [
+    "Cv.C03.chi_squared_is_gamma", "Cv.C03.beta_is_gamma_ratio", "Cv.C03.t_formula", "Cv.C03.binomial_flip",
+    "Cv.C03.binomial_routing", "Cv.C03.poisson_routing", "Cv.C03.mvn_sample_eq", "Cv.C03.gamma_sqrt_domain",
+    "Cv.C03.legacy_gamma_sqrt_domain",   # about the code deleted by repair F20: kept as the witness of that defect only
 ]
 RULE = ("per distribution x regime (gamma shape <1/3, <1, >=1 and beta / chi-squared / t built on it; Poisson rate <10, >=10, "
-        ">=150; binomial inversion / BTPE, flipped p > 1/2, p in {0,1}, n = 0; degenerate equal bounds) x RNG seeds: the first "
-        "2000 draws of the stream and the final generator state compared bit for bit with the model (`s`), sample_matrix and "
-        "MVN sample_n shapes and data (`m`, `mvn`), and the DKW criterion at alpha = 1e-12 on n = 2e5 (quick) / 4e6 (thorough) "
-        "draws per case against scipy.stats CDFs (`q`, `qmvn`: whitened coordinates + 16 random projections); "
-        "non-trivial = distinct (op, distribution, regime, parameters)")
+        ">=150; binomial inversion / BTPE, flipped p > 1/2, p in {0,1}, n = 0; degenerate equal bounds; exact special values and "
+        "+-1 ulp bands around every branch constant; objects reached through setters / update / Default / Clone; the zero-uniform "
+        "generator states for every distribution) x RNG seeds: EVERY request is two-sided — the draws (first 2000 of the stream, "
+        "bulk routes up to 65537, sample_matrix, MVN sample_n and repeated sample) and the DKW summaries of the long streams are "
+        "compared bit for bit with the model, final generator state included; the DKW criterion at alpha = 1e-12 is evaluated on "
+        "the implementation's streams against scipy.stats CDFs: n = 2e5 (quick grid) / 1e5 (quick strata); thorough: 4e6 (regime "
+        "grid), 1e6 (setter histories, construction routes, special values, zero-state seeds, MVN), 32767..65537 (bulk-route "
+        "boundaries), 5e4 (corpus witnesses); MVN: whitened coordinates + 16 random projections; "
+        "non-trivial = distinct (op, route, distribution, regime, parameters)")
 NOT_PROVED = [
-    "the laws of the rejection samplers: Ziggurat normal (table consistency included), Marsaglia–Tsang gamma (and so beta, "
-    "chi-squared, t), PTRS Poisson, BTPE binomial — measure theory over acceptance regions; covered by the bit-exact tie + DKW search",
-    "termination of the rejection loops for every generator state (theorems are about every run that returns; fuel 1e5 per draw "
-    "is never exhausted in the correspondence runs)",
+    "the LAWS of the rejection samplers: Ziggurat normal, Marsaglia–Tsang gamma (and so beta, chi-squared, t), PTRS Poisson, "
+    "BTPE binomial — measure theory over acceptance regions; decided only by the bit-exact tie + DKW search.  In particular "
+    "that MVN draws have covariance Sigma in distribution is not proved: proved is x = mu + L z with L L^T = Sigma "
+    "(mvn_sample_spec + mvn_new_spec), z the dim Ziggurat draws",
+    "TERMINATION of the rejection loops (Ziggurat, Marsaglia–Tsang, PTRS, BTPE, Lemire) for every generator state: every "
+    "theorem about them is partial correctness (`_partial`: about every call that returns) plus a concrete returning state "
+    "(Props/C03Witness); proved termination: Poisson multiplication method and binomial inversion for every state, the "
+    "u = 0 redraw loop conditionally on the stream containing a non-zero uniform within the fuel",
+    "that the Ziggurat table Y is exp(-x^2/2) at the layer edges: proved are only the internal relations of the tables "
+    "(K[i] = floor(2^24 W[i-1]/W[i]) exactly; equal layer areas to a relative 1e-9; 2^24 W[126] = R to 1e-9; Y strictly "
+    "decreasing).  An edit of K, or of Y / W / R beyond those tolerances breaks a proof; an edit that keeps them, or a "
+    "consistent regeneration of all tables, is seen only by the DKW search (the run-time tie regenerates the tables into the model)",
     "that wyrand's outputs are uniform and independent (not a mathematical fact; searched by the DKW band)",
-    "floating-point rounding of the inverse-CDF formulas (theorems are over the reals; the tie is bit-exact and the DKW search "
-    "runs on the f64 outputs)",
+    "floating-point rounding of the formulas (theorems are over the reals; the tie is bit-exact and the DKW search runs on "
+    "the f64 outputs)",
+    "a source-level tie exists only for: Uniform::sample, the formula after the redraw loop of Exponential / Gumbel / Pareto "
+    "(currently stale: the `while` left the translated subset, see the SourceDrift note), the Poisson / Binomial routing "
+    "predicates and the T / Beta compositions.  RUN-TIME ONLY (hand model + bit-exact tie): wyrand, f64(), Lemire's "
+    "u64_less_than, Ziggurat, Marsaglia–Tsang, PTRS, BTPE, Bernoulli, MVN, the bulk helpers",
 ]
 TRUSTED = [
     "the regex translator EXTRACT (Ziggurat tables, constants) and Python's correctly rounded float() for the literals "
@@ -283,6 +320,10 @@ ASSUMPTIONS = [
     "a draw counts as inside the support when it lies in the closure of the support (a positive variate may round to 0.0); "
     "CDFs of continuous laws are evaluated at the draw perturbed by a relative 1e-12 (rounding of the draw), which matters "
     "only where the CDF is nearly discontinuous (gamma with tiny shape near 0)",
+    "the DKW statistic is a LOWER bound of sup|F_n - F| computed from K recorded order statistics (or the exact histogram when "
+    "there are at most 4096 distinct values): it can be below the true distance by at most 1/K — K = 2000 in quick (5e-4, 6 % "
+    "of the n = 2e5 band), K = 8000 in thorough (1.25e-4, 6.5 % of the n = 4e6 band); false alarms stay below 1e-12 per case, "
+    "detection power is reduced by that margin",
     "per-request wall-clock cap 30 s (correspondence) / 120 s (DKW summaries): exceeding it counts as non-termination",
 ]
 ALPHA = 1e-12
@@ -1439,9 +1480,10 @@ def EXTRACT(repo):
 
 # --- deep theorems (C03Support)
 PROOF_MODULES = PROOF_MODULES + ['Compute.Props.C03Support']
-REQUIRED_THEOREMS = REQUIRED_THEOREMS + ['Cv.C03Support.ptrs_support', 'Cv.C03Support.poisson_sample_support', 'Cv.C03Support.ptrs_small_lambda_returns_negative', 'Cv.C03Support.btpe_support', 'Cv.C03Support.binomial_sample_support', 'Cv.C03Support.binomial_flip_total', 'Cv.C03Support.chi_squared_pos', 'Cv.C03Support.t_support', 'Cv.C03Support.beta_support', 'Cv.C03Support.zig_strip_nonneg', 'Cv.C03Support.zig_wedge_tail_nonneg', 'Cv.C03Support.zig_out']
+REQUIRED_THEOREMS = REQUIRED_THEOREMS + ['Cv.C03Support.ptrs_support_partial', 'Cv.C03Support.poisson_sample_support_partial', 'Cv.C03Support.ptrs_small_lambda_returns_negative', 'Cv.C03Support.btpe_support_partial', 'Cv.C03Support.binomial_sample_support_partial', 'Cv.C03Support.binomial_flip_total', 'Cv.C03Support.chi_squared_pos_partial', 'Cv.C03Support.t_support_partial', 'Cv.C03Support.beta_support_partial', 'Cv.C03Support.zig_strip_nonneg', 'Cv.C03Support.zig_wedge_tail_nonneg', 'Cv.C03Support.zig_out']
 NOT_PROVED = [x for x in NOT_PROVED if not any(k in str(x) for k in ('support of PTRS', 'Support of PTRS'))]
-NOT_PROVED = NOT_PROVED + ['support of the rejection samplers IS proved (Props/C03Support): Poisson draws are naturals for every rate, Binomial draws are naturals <= n for every n and p in [0,1] (BTPE candidates lie in [0,n] by the set-up arithmetic; the flip never underflows), Beta in [0,1]; Ziggurat support is proved per accepting branch, not through the Normal.sample loop (unfolding that definition does not terminate in Lean); chi-squared / t strict positivity of the gamma variate holds for every returning call since repair F54']
+# (review: this sentence states what IS proved, so it no longer sits in NOT_PROVED)
+PROVED_NOTES = ['support of the rejection samplers IS proved (Props/C03Support): Poisson draws are naturals for every rate, Binomial draws are naturals <= n for every n and p in [0,1] (BTPE candidates lie in [0,n] by the set-up arithmetic; the flip never underflows), Beta in [0,1]; Ziggurat support is proved per accepting branch, not through the Normal.sample loop (unfolding that definition does not terminate in Lean); chi-squared / t strict positivity of the gamma variate holds for every returning call since repair F54']
 
 # --- source tie (translator pass 4: sample() of the inverse-CDF samplers regenerated from /repo/src into Generated/SrcC03.lean,
 # proved equal to the hand model in Props/SrcTieC03.lean)
